@@ -417,6 +417,42 @@ def class_pairs():
     P.append(("final field assigned exactly once per constructor", "never", ff % "", ff % "this.k = v;"))
     P.append(("final field assigned exactly once per constructor", "conditional", ff % "if (v > 0) { this.k = v; }", ff % "this.k = v;"))
     P.append(("final field assigned exactly once per constructor", "in a loop", ff % "while (v > 5) { this.k = v; }", ff % "this.k = v;"))
+    # ---- rules in positions first reached by exploring the analyser by hand (each was accepted before its repair, DESIGN s.7)
+    fld = "class A { public int x; public string s; public constructor() -> A { } %s }\nfunction main() -> void { A a = new A(); %s }"
+    for pos, mem, mainst, good_mem, good_main in [
+            ("bare field <- array", "public function m() -> void { int[] r = {1}; x = r; }", "a.m();", "public function m() -> void { int r = 1; x = r; }", "a.m();"),
+            ("this.field <- object", "public function m() -> void { this.s = new A(); }", "a.m();", "public function m() -> void { this.s = \"q\"; }", "a.m();"),
+            ("obj.field <- object, from outside", "", "a.x = new A();", "", "a.x = 5;"),
+            ("nested (field = object)", "public function m() -> void { echo(x = new A()); }", "a.m();", "public function m() -> void { echo(x = 4); }", "a.m();")]:
+        P.append(("class or array value into a primitive field", pos, fld % (mem, mainst), fld % (good_mem, good_main)))
+    ctor = "abstract class Abs { public constructor() -> Abs = default; }\nclass A { public int x; public constructor() -> A { this.x = 0; return this; %s } }\nfunction main() -> void { A a = new A(); echo(a.x); }"
+    for pos, bad_s, good_s in [("type mismatch", "int y = \"str\";", "int y = 1;"), ("undeclared name", "nowhere = 3;", "this.x = 3;"),
+                               ("final written", "final int z = 1; z = 2;", "final int z = 1; int w = z;"), ("abstract instantiated", "Abs q = new Abs();", "A q = new A();")]:
+        P.append(("violation written after 'return' in a constructor", pos, ctor % bad_s, ctor % good_s))
+    for pos, bad_m, good_m in [("method", "public function m(void q) -> void { }", "public function m(int q) -> void { }"),
+                               ("static method", "public static function m(void q) -> void { }", "public static function m(int q) -> void { }"),
+                               ("constructor", "public constructor(void q) -> A { }", "public constructor(int q) -> A { }")]:
+        P.append(("void parameter", pos, "class A { public constructor() -> A { } %s }\nfunction main() -> void { }" % bad_m,
+                  "class A { public constructor() -> A { } %s }\nfunction main() -> void { }" % good_m))
+    dt = "class A { public constructor() -> A { } public destructor() -> void { echo(\"bye\"); %s } }\nfunction main() -> void { A a = new A(); destroy a; }"
+    P.append(("'return value' in a void member", "destructor", dt % "return 5;", dt % "return;"))
+    P.append(("use before declaration", "a variable in its own initialiser", "function main() -> void { int w = w; echo(w); }", "function main() -> void { int v = 2; int w = v; echo(w); }"))
+    P.append(("use before declaration", "a class variable in its own initialiser", "class F { public constructor() -> F { } }\nfunction main() -> void { F f = f; }",
+              "class F { public constructor() -> F { } }\nfunction main() -> void { F g = new F(); F f = g; }"))
+    P.append(("use before declaration", "declared only in a branch of a conditional statement", "function main() -> void { false ? int z = 1; : echo(\"n\"); echo(z); }",
+              "function main() -> void { int z = 0; false ? z = 1; : echo(\"n\"); echo(z); }"))
+    vd = "class A { public constructor() -> A { } public function m() -> void { } public function n() -> int { return 2; } }\nfunction v() -> void { }\nfunction w() -> int { return 1; }\nfunction main() -> void { A a = new A(); %s }"
+    for pos, bad_s, good_s in [("string + method result", "string s = \"r=\" + a.m();", "string s = \"r=\" + a.n();"), ("function result + string", "string s = v() + \"x\";", "string s = w() + \"x\";"),
+                               ("echo of a function result", "echo(v());", "echo(w());"), ("echo of a method result", "echo(a.m());", "echo(a.n());"),
+                               ("echo of a concatenation", "echo(\"g=\" + v());", "echo(\"g=\" + w());")]:
+        P.append(("result of a void call used as an operand", pos, vd % bad_s, vd % good_s))
+    fa = "class A { public final int[] a = {1, 2}; public int[] b = {3}; public constructor() -> A { } public function m() -> void { %s } }\nfunction main() -> void { A o = new A(); o.m(); }"
+    P.append(("final field modified after initialisation", "element of a final array field", fa % "a[0] = 9;", fa % "b[0] = 9;"))
+    P.append(("final field modified after initialisation", "element of a final array field, nested", fa % "echo(a[1] = 9);", fa % "echo(b[0] = 9);"))
+    for pos, bad_s, good_s in [("int initialiser", "int x = {1, 2};", "int[] x = {1, 2};"), ("class initialiser", "A f = {1, 2};", "A f = new A();"),
+                               ("assignment", "int x = 0; x = {1};", "int[] x = {0}; x = {1};"), ("string initialiser", "string t = {\"a\"};", "string[] t = {\"a\"};")]:
+        P.append(("array literal where no array is declared", pos, "class A { public constructor() -> A { } }\nfunction main() -> void { %s }" % bad_s,
+                  "class A { public constructor() -> A { } }\nfunction main() -> void { %s }" % good_s))
     return P
 
 
